@@ -1,12 +1,12 @@
 SPECIFICATION Spec
 CONSTANTS
-  MaxUnits = 2
-  MaxPrefixes = 2
+  MaxUnits = 1
+  MaxPrefixes = 1
   MaxLen = 4
   KindMode = "all"
   MaxAlias = 0
-  MaxPAlias = 0
-  MaxCollide = 0
+  MaxPAlias = 1
+  MaxCollide = 1
   NN = {1, 2, 3, 4, 5, 6, 7, 8, 9, 10, 11, 12}
 INVARIANTS Theorems Emit
 CHECK_DEADLOCK FALSE
